@@ -5,18 +5,27 @@ from lib.vlib import *
 
 META = {
     "property_id": "C08",
-    "technique": "Coq proof (termination and coverage of the environment traversal) + reified-graph correspondence + edit-menu oracle on real loads",
+    "technique": "Coq proof (termination, coverage, determinism and name-qualified sensitivity of the environment traversal) + reified-graph correspondence + edit-menu oracle on real loads",
     "level_text": "Theorems (Coq, all graphs): fingerprint_terminates (the traversal done by recursionPickler/envPickler under the "
-                  "encoder's memo terminates on every function graph, recursion and mutual recursion included) and "
-                  "fingerprint_covers_reachable (the code of every reachable function is in the fingerprint), fingerprint_independent_of_identities "
-                  "(renaming function identities by any injective map leaves the fingerprint unchanged). Tie: the harness "
+                  "encoder's memo terminates on every function graph, recursion and mutual recursion included); "
+                  "fingerprint_covers_reachable (the code of every reachable function is in the fingerprint); "
+                  "fingerprint_deterministic (two rooted function graphs whose reachable parts are isomorphic -- equal names, codes and "
+                  "mentioned functions in order, whatever the identities, listing order, graph size and unreachable rest -- have equal "
+                  "fingerprints; subsumes the former renaming-invariance theorem); iso_relates_every_reachable_function; "
+                  "fingerprint_sensitive_partial (equal fingerprints => the reachable parts are isomorphic, PROVIDED that in at least one "
+                  "of the two graphs no two different reachable functions share a name); fingerprint_sensitive_refuted (without that "
+                  "proviso the statement is false of the model: a function in progress is denoted by its name alone -- witness "
+                  "collide_g1/collide_g2, reproduced on the implementation, see the C08 finding 'same-named functions in progress'). Tie: the harness "
                   "reifies the live function graph of each program's target and the Coq model must reproduce the expansion tree seen "
                   "in the implementation's decoded fingerprint. Oracles on the implementation, each load in its own process: "
                   "terminates without error/crash/hang for recursion, mutual recursion, closures, defaults, nested defs, lambdas, "
                   ">1000-element and cyclic data, every predeclared value; identical text re-loaded (other file order, other "
                   "GOMAXPROCS) gives the identical stamp; every edit of a menu of referenced codes/values changes it (as the engine "
                   "compares it: diffEnv), every cosmetic / other-package edit does not.",
-    "level_note": "Trusted: Coq kernel; the model abstracts values to the function objects they mention (byte-level codec = C07); "
+    "level_note": "Trusted: Coq kernel; the model abstracts values to the function objects they mention (byte-level codec = C07) and a "
+                  "function's own payload (bytecode, constants, names, non-function values) to one code identity, so model-level "
+                  "sensitivity is sensitivity to that identity and to the reference structure; the model's memo reference carries the "
+                  "name only (the stamp carries a memo index), which is why names_identify is also needed for finished functions; "
                   "the Starlark compiler is not modelled (the reifier reads live objects through the same accessors envPickler uses); "
                   "determinism and sensitivity for value kinds are decided by the harness on a fixed program menu, not by a theorem.",
     "design_ref": "DESIGN.md §6 C08",
